@@ -572,6 +572,11 @@ def discrete_SIR(G, test_transmission=_simple_test_transmission_, args=(), test_
         initial_infecteds=[initial_infecteds]
     #else it is assumed to be a list of nodes.
 
+    if initial_recovereds is None:
+        initial_R_count = 0
+    else:
+        initial_recovereds = list(initial_recovereds)
+        initial_R_count = len(set(initial_recovereds))
     if return_full_data:
         node_history = defaultdict(lambda : ([tmin], ['S']))
         transmissions = []
@@ -584,9 +589,9 @@ def discrete_SIR(G, test_transmission=_simple_test_transmission_, args=(), test_
     
     N=G.order()
     t = [tmin]
-    S = [N-len(initial_infecteds)]
+    S = [N-len(initial_infecteds)-initial_R_count]
     I = [len(initial_infecteds)]
-    R = [0]
+    R = [initial_R_count]
     
     susceptible = defaultdict(lambda: True)  
     #above line is equivalent to u.susceptible=True for all nodes.
@@ -598,10 +603,10 @@ def discrete_SIR(G, test_transmission=_simple_test_transmission_, args=(), test_
             susceptible[u] = False
         
     infecteds = set(initial_infecteds)
-    totR= 0
+    totR= initial_R_count
     nI = len(initial_infecteds)
-    nR = 0
-    nS = N - nI
+    nR = initial_R_count
+    nS = N - nI - nR
     
     while infecteds and t[-1]<tmax:
         new_infecteds = set()
